@@ -19,7 +19,8 @@ def run(ctx):
     n = 1200 if ctx.quick else 12000
     ctx.rule = ("case = (mode, entry point [link_to / link_to_hash / ToLinker::open(+partial reads) / WriteOpts::link_to "
                 "with size+integrity options], target length in {0,1,16KiB-1,16KiB,16KiB+1,100KiB}, absolute or "
-                "relative target path with the driver chdir'ed next to the target or elsewhere, partial reads of "
+                "relative target path with the driver chdir'ed next to the target or elsewhere (ten spellings of the same file: "
+                "./x, ../t/x, sub/../x, symlinked-dir/../x, via a symlinked directory, cwd entered through a symlink, ..//t/./x), partial reads of "
                 "{0,1,8,9,16KiB,all} bytes before commit, address pre-existing as regular content or not, post-link "
                 "mutation of the target [none/modify/truncate/replace/remove]). Judged: read(key)/read_hash(address) "
                 "bytes, recorded size, lstat of the content path (symlink unless a regular file pre-existed), target "
@@ -41,15 +42,42 @@ def run(ctx):
             f.write(data)
         os.chmod(tpath, rng.choice([0o644, 0o600, 0o444]))
         before = snap(tpath)
-        pathkind = rng.choice(["abs", "rel-here", "rel-dotdot"])
+        # every spelling below names the SAME file as far as the operating system is concerned
+        pathkind = rng.choice(["abs", "rel-here", "rel-dotdot", "rel-dot", "rel-sub-dotdot", "rel-symdir-dotdot",
+                               "rel-via-symdir", "abs-symdir-dotdot", "rel-noise", "cwd-via-symlink"])
+        other = os.path.join(base, f"elsewhere{i}")
         if pathkind == "abs":
             tgt, chdir = tpath, None
         elif pathkind == "rel-here":
             tgt, chdir = "target file.bin", tdir
-        else:
-            other = os.path.join(base, f"elsewhere{i}")
+        elif pathkind == "rel-dot":
+            tgt, chdir = "./target file.bin", tdir
+        elif pathkind == "rel-dotdot":
             os.makedirs(other)
             tgt, chdir = os.path.join("..", f"t{i}", "target file.bin"), other
+        elif pathkind == "rel-noise":
+            os.makedirs(other)
+            tgt, chdir = f"..//t{i}/./target file.bin", other
+        elif pathkind == "rel-sub-dotdot":
+            os.makedirs(os.path.join(tdir, "sub"))
+            tgt, chdir = "sub/../target file.bin", tdir
+        elif pathkind in ("rel-symdir-dotdot", "abs-symdir-dotdot"):
+            # elsewhere/ln -> t/sub : "ln/.." is t, not elsewhere
+            os.makedirs(os.path.join(tdir, "sub"))
+            os.makedirs(other)
+            os.symlink(os.path.join(tdir, "sub"), os.path.join(other, "ln"))
+            if pathkind == "rel-symdir-dotdot":
+                tgt, chdir = "ln/../target file.bin", other
+            else:
+                tgt, chdir = os.path.join(other, "ln", "..", "target file.bin"), None
+        elif pathkind == "rel-via-symdir":
+            os.makedirs(other)
+            os.symlink(tdir, os.path.join(other, "ln"))
+            tgt, chdir = "ln/target file.bin", other
+        else:   # the working directory was entered through a symlink
+            os.makedirs(other)
+            os.symlink(tdir, os.path.join(other, "cwdlink"))
+            tgt, chdir = "target file.bin", os.path.join(other, "cwdlink")
         via = rng.choice(["fn", "fn", "open", "opts"])
         keyed = rng.random() < 0.75
         key = f"link-{i}"
